@@ -142,7 +142,28 @@ fn gen_record(rng: &mut Rng, s: &mut Scenario, next_id: &mut u8, batch: u64, bud
     let mut ids = Vec::new();
     let mut total = 0usize;
     let crowd = rng.chance(1, 40);
+    // band: decodable records of every content type with lengths between 2^14+1 and the cap
+    let band = budget >= CAP && rng.chance(1, 4);
     match ctype {
+        20 | 21 | 24 if band => {
+            let n = rng.urange(16385, CAP);
+            let m = match ctype {
+                20 => Item::new("ccs").int("_rep", n as u64),
+                21 => gen::alert(rng).int("_rep", (n / 2) as u64),
+                _ => {
+                    let plen = rng.urange(16000, n - 3);
+                    Item::new("heartbeat").int("hbtype", 1).int("plen", plen as u64).bytes("payload", &rng.bytes(plen)).bytes("pad", &rng.bytes(n - 3 - plen))
+                }
+            };
+            total += n / if ctype == 21 { 2 } else { 1 } * if ctype == 21 { 2 } else { 1 };
+            let id = push_msg(s, next_id, m);
+            ids.push(id);
+        }
+        22 if band => {
+            let want = rng.urange(16385, CAP) - 4;
+            let m = Item::new("certificate_verify").bytes("body", &rng.bytes(want));
+            add(s, next_id, m, &mut ids, &mut total);
+        }
         20 | 21 | 22 if crowd => {
             // a crowded record: far more messages than any fixed small bound
             let n = match rng.below(3) {
